@@ -39,6 +39,6 @@ theorem AsmTables_integer (neg : Bool) (m : Nat) (isHex : Bool) (hm : m < 2 ^ 64
   unfold integerFinalSrc applySign u64ToI64 wrapI64 u64ToI64
   cases neg <;> cases isHex <;> simp [em] <;> (repeat' split) <;> first | rfl | omega | (simp_all; omega) | simp_all
 
-theorem AsmTables_parserShapes : integerFinalSrcOk = true ∧ signShape = true ∧ hexParseShape = true ∧ decParseShape = true ∧ registerParseShape = true := by decide
+theorem AsmTables_parserShapes : integerFinalSrcOk = true ∧ parserStructureShape = true ∧ signShape = true ∧ hexParseShape = true ∧ decParseShape = true ∧ registerParseShape = true := by decide
 
 end Rbpf
